@@ -46,7 +46,8 @@ def pvc_range(*args):
 
 def _item(x, k):
     if isinstance(x, SSeq):
-        return x.at(k)
+        v = x.at(k)
+        return symnp.wrap_scalar(v) if core.is_z3(v) else v
     if isinstance(x, STensor):
         return x.at(k)
     if isinstance(x, (list, tuple)):
